@@ -5,9 +5,9 @@ from autobean_refactor.models.internal.repeated import Repeated
 
 CASES = {'quick': 1500, 'thorough': 40000}
 GATES = {
-    'quick': {'evaluations': 30000, 'getter_checks': 25000, 'setter_checks': 3000, 'setter_nonempty_readback': 1500,
+    'quick': {'evaluations': 30000, 'getter_checks': 25000, 'setter_checks': 3000, 'chained_setter_checks': 3000, 'setter_nonempty_readback': 1500,
               'model_next_to_zero_width': 2000, 'classes_checked': 25, 'setter_crlf': 150,
-              'runs_split_by_zero_width_token': 100, 'post_write_neighbour_sweeps': 150},
+              'runs_split_by_zero_width_token': 100, 'post_write_neighbour_sweeps': 80},
     'thorough': {'evaluations': 800000, 'classes_checked': 30},
 }
 SPACINGS = ['', ' ', '\n', '\r\n', '  \t', '\n\n', ' \n\t \n', '\t', '    ', '\r\n\r\n', ' \r\n ', '\n ']
@@ -15,7 +15,8 @@ RULE = ('case = one accepted generated document (both attribution modes; stores 
         'Every character is labelled by the *type* of its token: S for Whitespace/Newline tokens, X for everything else (indentation '
         'and the blanks inside comments are X, as docs/special/spacing.md says). Getter evaluation: for every model and token with '
         'spacing accessors except the root, spacing_before/after == the maximal run of S characters adjacent to its first/last '
-        'character (so two neighbours necessarily agree). Setter evaluation (4..8 per document, fresh parse each): after assigning one '
+        'character (so two neighbours necessarily agree). Setter evaluation (4..8 per document with a fresh parse each, or - every other document - 12..30 in a row on the same '
+        'tree, biased towards collapsing runs near the start so that store blocks shrink and merge): after assigning one '
         'of 12 spacing strings the printed text == text with exactly that run replaced, and a non-empty string reads back. '
         'After a setter that replaces pure line ends by pure line ends (no blanks on either side; the printed text lexes into the same non-empty tokens the edited store holds), all models of the edited tree must read the same spacing as the models of a fresh parse of the printed text (neighbour agreement after the write). Non-trivial = the run is non-empty or the assigned string is; distinct = hash(text, path, side, string).')
 ASSUMPTIONS = ['spacing strings are drawn from [ \\t]+ and \\r?\\n groups, the domain the statement names']
@@ -96,17 +97,28 @@ def run_case(col, r, idx):
                     return
         if not ms:
             return
-        for trial in range(4 if col.tier == 'quick' else 8):
-            f = P.parse(text, models.File, auto_claim_comments=acl)
+        # half of the documents take all their assignments one after the other on the same tree (runs collapse, blocks of the store
+        # shrink and merge); the others get a fresh parse per assignment
+        chained = idx % 2 == 0
+        ntrials = (12 if chained else 4) if col.tier == 'quick' else (30 if chained else 8)
+        chain = []
+        f = P.parse(text, models.File, auto_claim_comments=acl)
+        for trial in range(ntrials):
+            if not chained:
+                f = P.parse(text, models.File, auto_claim_comments=acl)
             ms = targets(f)
-            path, m = r.choice(ms)
+            path, m = r.choice(ms[:15]) if chained and r.random() < 0.5 else r.choice(ms)
             side = r.choice(['before', 'after'])
-            s = r.choice(SPACINGS)
+            s = r.choice(SPACINGS + (['', '', ' '] if chained else []))
             lab, pos, full = labels(f.token_store)
             i, a, b, j = runs(lab, pos, m)
             exp = full[:i] + s + full[a:] if side == 'before' else full[:b] + s + full[j:]
             old = full[i:a] if side == 'before' else full[b:j]
-            wit = {'text': text, 'path': path, 'side': side, 'assigned': s, 'old_run': old, 'acl': acl, 'lf': lf}
+            wit = {'text': text, 'path': path, 'side': side, 'assigned': s, 'old_run': old, 'acl': acl, 'lf': lf,
+                   'earlier_assignments_on_this_tree': list(chain), 'text_before_this_assignment': full}
+            if chained:
+                chain.append((path, side, s))
+                col.count('chained_setter_checks')
             try:
                 setattr(m, 'spacing_' + side, s)
             except Exception as e:
@@ -117,7 +129,7 @@ def run_case(col, r, idx):
             if '\r' in s:
                 col.count('setter_crlf')
             if s or old:
-                col.nontrivial(text, path, side, s)
+                col.nontrivial(text, path, side, s, len(chain))
             got = common.pr(f)
             if got != exp:
                 kind = 'non-blank-text-changed' if [c for c in got if c not in ' \t\r\n'] != [c for c in exp if c not in ' \t\r\n'] \
@@ -135,7 +147,8 @@ def run_case(col, r, idx):
             # differently), every model of the edited tree must see the spacing a fresh parse of the printed text sees.
             nl_only = lambda t: bool(t) and not t.replace('\r\n', '').replace('\n', '')
             lo, hi = (i, a) if side == 'before' else (b, j)
-            if nl_only(s) and nl_only(old) and not (lo and full[lo - 1].isspace()) and not (hi < len(full) and full[hi].isspace()):
+            fresh = not chained or trial == 0     # earlier assignments on this tree may have put blanks where a lexer places them differently
+            if fresh and nl_only(s) and nl_only(old) and not (lo and full[lo - 1].isspace()) and not (hi < len(full) and full[hi].isspace()):
                 try:
                     f2 = P.parse(got, models.File, auto_claim_comments=acl)
                 except Exception:
